@@ -106,8 +106,9 @@ BinOp(op, s1, s2, num, fill) ==
     LET s2r == ToWave(s2, s1.e)
         g == BinOpGrid(s1, s2r, num)
         val(s, x) == IF Inside(s, x) THEN Interp(s, x) ELSE fill
-    \* the result is a density if either operand is one (a unitless transmission times a flux is a flux, in either order)
-    IN [e |-> s1.e, vu |-> IF s1.vu = "none" THEN s2r.vu ELSE s1.vu, w |-> g,
+    \* the result is a density if either operand is one (a unitless transmission times a flux is a flux, in either order);
+    \* the quotient of two densities is a pure number (it is the same number in whatever wavelength unit the two are written)
+    IN [e |-> s1.e, vu |-> IF s1.vu = "none" THEN s2r.vu ELSE IF op = "div" /\ s2r.vu # "none" THEN "none" ELSE s1.vu, w |-> g,
         v |-> [j \in 1..(num + 1) |-> Op(op, val(s1, g[j]), val(s2r, g[j]))]]
 \* grid points that coincide exactly with an end of an operand's range (and are not grid ends) are float ties
 BinOpTies(s1, s2, num) ==
